@@ -17,6 +17,8 @@ Inductive op :=
 | OGrowObserved (id : Z)               (* grow(id) while ANOTHER Crop object queries progress at the moment the
                                           result is written but not yet published *)
 | OGrowWriteFails (ids : list Z)       (* Crop.grow(ids) while writing the result file fails (full disk, quota) *)
+| OSowDies (i : input) (bs nb : option Z)  (* a sow that fails while its FIRST batch file is written: the settings are
+                                          on disk, no batch is *)
 | OTearCheck (id : Z) (keep : bool)     (* result file [id] is torn from outside (truncated, as network file systems have
                                           been seen to leave it), then check_bad(delete_bad = negb keep) runs; with
                                           [keep] the torn file is removed by hand afterwards *)
@@ -94,6 +96,13 @@ Definition step (s : st) (o : op) : st * val :=
   | OCheckBadKeep =>
       let '(bad, _) := check_bad d in
       ok (mk_st ob d (s_fail s) (s_kind s)) [vlist VZ (sort_dedup bad)]
+  | OSowDies i bs nb =>
+      match sow ob d i bs nb with
+      | Ok (ob', d1) =>
+          let d' := mk_disk (d_info d1) (d_batches d) (d_results d) in
+          (mk_st (sync ob' d') d' (s_fail s) (s_kind s), VL (VZ 1 :: enc_queries (sync ob' d') d'))
+      | Err _ => err
+      end
   | OTearCheck id keep =>
       (* a torn result no longer has its batch's length: exactly it (and whatever else is bad) is reported *)
       let d1 := mk_disk (d_info d) (d_batches d) (zset id [] (d_results d)) in
